@@ -189,11 +189,20 @@ class ASTCFG(dict[str, WritableASTBlock]):
     def prune_empty(self) -> set[WritableASTBlock]:
         """Prune empty blocks from the CFG."""
         empty = set()
+        entry = next(iter(self))
         for name, block in list(self.items()):
             if not block.instructions:
-                empty.add(self.pop(name))
                 # Empty blocks can only have a single jump target.
                 it = block.jump_targets[0]
+                # The entry block must not have predecessors, keep it if its
+                # jump target is also the target of another block.
+                if name == entry and any(
+                    it in b.jump_targets
+                    for b in self.values()
+                    if b is not block
+                ):
+                    continue
+                empty.add(self.pop(name))
                 # Iterate over the blocks looking for blocks that point to the
                 # removed block. Then rewire the jump_targets accordingly.
                 for b in list(self.values()):
@@ -879,7 +888,11 @@ class SCFG2ASTTransformer:
                 )
                 if_node = ast.If(test, body, orelse)
                 return block.tree[:-1] + [if_node]
-            elif block.fallthrough and type(block.tree[-1]) is ast.Return:
+            elif (
+                block.fallthrough
+                and block.tree
+                and type(block.tree[-1]) is ast.Return
+            ):
                 # The value of the ast.Return could be either None or an
                 # ast.AST type. In the case of None, this refers to a plain
                 # 'return', which is implicitly 'return None'. So, if it is
